@@ -679,7 +679,16 @@ class PowerExpression(BinaryExpression):
         return np.power(one, two)
 
     def __str__(self) -> str:
-        return "{}{}{}".format(self.left, self.with_color(self.name), self.right)
+        left, right = str(self.left), str(self.right)
+        # Operands the parser would not read back as the base/exponent of this
+        # power: (a^b)^c, (-a)^b, (4x)^2 (the compact term prints no parens), a^(b^c)
+        if isinstance(self.left, (PowerExpression, NegateExpression)) or (
+            isinstance(self.left, MultiplyExpression) and not left.startswith("(")
+        ):
+            left = f"({left})"
+        if isinstance(self.right, PowerExpression):
+            right = f"({right})"
+        return "{}{}{}".format(left, self.with_color(self.name), right)
 
 
 class ConstantExpression(MathExpression):
